@@ -66,8 +66,10 @@ extern struct __verif_ev __verif_log[VERIF_LOG_CAP];
 extern unsigned __verif_n;          /* number of events (may exceed CAP: overflow is an obligation) */
 extern _Bool __verif_crashed;       /* a crash path (__builtin_trap) was entered */
 extern _Bool __verif_crash_is_bug;  /* harness: inputs are valid, crash must be unreachable */
+extern unsigned long long __verif_last_load;     /* value returned by the most recent atomic load */
+extern const volatile void *__verif_last_load_p; /* ... and its location */
 
-#define VERIF_GHOST  __verif_n, __CPROVER_object_whole(__verif_log), __verif_crashed
+#define VERIF_GHOST  __verif_n, __CPROVER_object_whole(__verif_log), __verif_crashed, __verif_last_load, __verif_last_load_p
 #define LOGK(i) (__verif_log[i].kind)
 #define LOGP(i) (__verif_log[i].p)
 #define LOGA(i) (__verif_log[i].a)
@@ -120,8 +122,14 @@ static inline void __verif_event(int kind, int mo, const volatile void *p,
 	}
 	__verif_n++;
 }
-#define __verif_commit(p, ov, nv, mo) \
-		__verif_event(EV_COMMIT, (mo), (p), (unsigned long long)(ov), (unsigned long long)(nv))
+/* per-harness guarantee: checked at EVERY commit (also inside loops whose log overflows):
+ * what this function may do to *p, as a predicate over (p, old, new, order) */
+#ifndef __VERIF_GUARANTEE
+#define __VERIF_GUARANTEE(p, ov, nv, mo) 1
+#endif
+#define __verif_commit(p, ov, nv, mo) do { \
+		VERIF_ASSERT(guarantee_at_every_commit, __VERIF_GUARANTEE((p), (unsigned long long)(ov), (unsigned long long)(nv), (mo))); \
+		__verif_event(EV_COMMIT, (mo), (p), (unsigned long long)(ov), (unsigned long long)(nv)); } while (0)
 
 static inline void __verif_trap(void)
 {
@@ -146,6 +154,7 @@ static inline void __verif_trap(void)
 #define __VERIF_LOADVAL(p) ({ \
 		_os_atomic_basetypeof(p) __vlv = (_os_atomic_basetypeof(p))__verif_nd(); \
 		__CPROVER_assume(__VERIF_RELY((p), __vlv)); \
+		__verif_last_load = (unsigned long long)__vlv; __verif_last_load_p = (p); \
 		__vlv; })
 #endif
 
@@ -336,6 +345,6 @@ static inline void __verif_trap(void)
  * counterexample is a replayable script */
 #define ND(type) ((type)__verif_nd())
 #define ND_BOOL() ((_Bool)(__verif_nd() & 1))
-#define VERIF_GHOST_RESET() do { __verif_n = 0; __verif_crashed = 0; __verif_crash_is_bug = 0; } while (0)
+#define VERIF_GHOST_RESET() do { __verif_n = 0; __verif_crashed = 0; __verif_crash_is_bug = 0; __verif_last_load = 0; __verif_last_load_p = 0; } while (0)
 
 #endif /* __VERIF_MODEL_H__ */
